@@ -294,3 +294,18 @@ func specChunkWireSize(c *chunkPayloadData) int {
 //@   loop 1 invariant#a-packet-over-the-mtu-holds-one-chunk{C10} bytesInPacket >= 12 && (bytesInPacket <= int(a.MTU()) || (len(chunksToSend) <= 1 && bytesInPacket <= 65600))
 //@   loop 1 atend assert#each-chunk-is-charged-its-wire-size{C10} chunkSizeInPacket == specChunkWireSize(chunkPayload)
 //@   tags C10
+
+// ---- C10: the window grows only on an advancing acknowledgement and by bounded steps; fast recovery cuts it ----
+
+//@ func Association.onCumulativeTSNAckPointAdvanced
+//@   assume#windows-below-two-to-the-31 a.CWND() < 1<<31 && a.MTU() <= 65535 && a.cwndCAStep <= 1<<30 && totalBytesAcked >= 0
+//@   at call Association.setCWND@1 assert#slow-start-grows-by-at-most-the-acked-bytes{C10} a.CWND() <= a.ssthresh && !a.inFastRecovery &&
+//@      arg1 >= a.CWND() && arg1-a.CWND() <= uint32(totalBytesAcked) && arg1-a.CWND() <= a.CWND()
+//@   at call Association.setCWND@2 assert#congestion-avoidance-grows-by-one-step{C10} a.CWND() > a.ssthresh && arg1 == a.CWND()+max(a.MTU(), a.cwndCAStep)
+//@   ensures#cwnd-never-shrinks-on-an-advancing-ack{C10} a.CWND() >= old(a.CWND())
+//@   ensures#ssthresh-untouched{C10} a.ssthresh == old(a.ssthresh)
+
+//@ func Association.processFastRetransmission
+//@   at store Association.ssthresh assert#fast-recovery-halves-ssthresh{C10} stored == max32(a.CWND()/2, 4*a.MTU())
+//@   at store Association.ssthresh assert#fast-recovery-entered-once{C10} a.inFastRecovery && stored == max32(a.CWND()/2, 4*a.MTU())
+//@   at call Association.setCWND assert#fast-recovery-cuts-cwnd-to-ssthresh{C10} arg1 == a.ssthresh && a.inFastRecovery
